@@ -94,7 +94,7 @@ fn any_seek() -> SeekFrom {
     }
 }
 
-/// region in which `BufferCursor::seek` overflows `isize` arithmetic (KF-C15-9)
+/// offsets whose sum with the base exceeds isize::MAX (panicked with an overflow before fix 37f9366)
 fn seek_overflows(len: usize, pos: usize, s: SeekFrom) -> bool {
     match s {
         SeekFrom::Start(_) => false,
@@ -111,7 +111,6 @@ fn seek_overflows(len: usize, pos: usize, s: SeekFrom) -> bool {
 // @sym buffer contents and length 0..24; two seeks of any variant with any 64-bit offset; read buffer length 0..8
 // @assert no panic / overflow; seek returns Ok(new position) exactly when the documented target (start / end / current + offset) is >= 0, else Err(SeekBeforeStart); read returns Err at or past the end, else Ok(n) with n = min(requested, remaining) and the bytes of the buffer at that position; the cursor advances by n
 // @bound two seeks then one read
-// @assume the offset does not overflow isize when added to the length / the position (complement: KF-C15-9)
 #[kani::proof]
 #[kani::unwind(10)]
 fn c15_io_buffer_cursor_seek_read() {
@@ -119,7 +118,6 @@ fn c15_io_buffer_cursor_seek_read() {
     let len = b.len;
     let mut c = BufferCursor::new(b);
     let s1 = any_seek();
-    kani::assume(!seek_overflows(len, 0, s1));
     let r1 = c.seek(s1);
     let want1: i128 = match s1 {
         SeekFrom::Start(p) => p as i128,
@@ -134,11 +132,10 @@ fn c15_io_buffer_cursor_seek_read() {
     }
     let pos1 = c.pos;
     let s2 = any_seek();
-    kani::assume(!seek_overflows(len, pos1, s2));
     let r2 = c.seek(s2);
     if let SeekFrom::Current(d) = s2 {
         let want2 = pos1 as i128 + d as i128;
-        if want2 < 0 {
+        if want2 < 0 || want2 > isize::MAX as i128 {
             kani::assert(r2.is_err() && c.pos == pos1, "c15.io.seek.before_start_is_err");
         } else {
             kani::assert(matches!(r2, Ok(p) if p as i128 == want2), "c15.io.seek.current_relative");
@@ -162,31 +159,35 @@ fn c15_io_buffer_cursor_seek_read() {
     kani::cover!(pos == 20 && n == 8 && len == 24, "short read at the end");
     kani::cover!(r1.is_err(), "seek before start");
     kani::cover!(pos > len, "cursor beyond the end");
+    kani::cover!(seek_overflows(len, 0, s1), "first offset beyond isize::MAX");
+    kani::cover!(seek_overflows(len, pos1, s2) && pos1 > 0, "second offset beyond isize::MAX from a non-zero position");
 }
 
 // @harness
 // @prop C15
 // @tier quick
 // @timeout 300
-// @expect known:KF-C15-9
 // @fn BufferCursor::seek
 // @sym buffer, seek variant End/Current with an offset that overflows isize
-// @assert seek returns (Ok or Err) for every offset
+// @assert seek returns Err (and leaves the position alone) for every offset whose target lies beyond isize::MAX, no overflow panic (was KF-C15-9)
 // @bound one or two seeks
-// @assume offset + length (or + position) exceeds isize::MAX (the region excluded from c15_io_buffer_cursor_seek_read)
+// @assume offset + length (or + position) exceeds isize::MAX (sub-region of c15_io_buffer_cursor_seek_read)
 #[kani::proof]
 #[kani::unwind(10)]
-fn c15_known_io_seek_offset_overflow() {
+fn c15_io_seek_offset_overflow_is_err() {
     let b = any_vbuf();
     let len = b.len;
     let mut c = BufferCursor::new(b);
     let p: usize = kani::any();
     kani::assume(p <= isize::MAX as usize);
     let _ = c.seek(SeekFrom::Start(p));
+    let before = c.pos;
     let s = any_seek();
     kani::assume(seek_overflows(len, c.pos, s));
-    let _ = c.seek(s);
-    kani::cover!(true, "reached");
+    let r = c.seek(s);
+    kani::assert(r.is_err() && c.pos == before, "c15.io.seek.overflow_is_err");
+    kani::cover!(matches!(s, SeekFrom::Current(_)) && before == 1, "Current from position 1");
+    kani::cover!(matches!(s, SeekFrom::End(_)) && len == 1, "End on a one-byte buffer");
 }
 
 /// asset honouring the documented contract and nothing more: each call returns Err, or Ok(n) with
